@@ -19,6 +19,15 @@ Tie to /repo:
       Mathlib's derivatives in Props/C06.lean, and the driver evaluates the generated tables at
       Float and the harness compares the VALUES with op(x), op.derivative(x) / f(t),
       f.derivative(t) of the real code (rel. 1e-13).
+  (L) round 4, leaf streams: the norm-type leaves NormOperator, DistOperator, L2Norm (functional, through
+      Functional.derivative = gradient(x).T), ComplexModulus, PointwiseNorm (exponent 2) are executed by the
+      driver at Float (Model/DerivLeaves.lean, op `leaf`) and compared with the real code: value, the
+      vector held by the returned operator and derivative(x)(d), BIT FOR BIT on dyadic grids, on
+      power-of-two-norm points and (element-wise classes) on random doubles; rel. 1e-13 only where a BLAS
+      dot product of non-dyadic data intervenes.  Strata at the non-differentiable points (raise /
+      zero functional / undivided zero component / 0/0).  Stream `leafcomp`: OperatorComp(leaf, random
+      exact tree) against Model/DerivLeafComp.lean (tree at Rat, leaf at Float), incl. the inner value
+      hitting the outer operator's non-differentiable point.
 Oracle (independent of the model, on the real code): central differences at h = 2^-k,
 k = 4..14: component-wise agreement with the Richardson-extrapolated estimate (rel. 1e-7) and
 decay of the plain central-difference error like h^2; derivative(x).is_linear,
@@ -81,11 +90,17 @@ ASSUMPTIONS = ['model world: spaces rn(n) and (nested) product spaces of them, f
                'blocks), point-wise products with complex vectors/values and complex-valued functionals '
                'are not (Impl.cwf); the merging of nested scalar multiplications is modelled for real '
                'scalars only (semantically neutral)',
-               'operator classes without an executable model (NormOperator, DistOperator, ComplexModulus, '
-               'PointwiseNorm, ufunc operators (their derivative TABLE is extracted and proved; values are '
-               'not executed in the model), finite differences, ResizingOperator, functionals other than '
-               'L2NormSquared/InnerProduct) are checked by the central-difference oracle on sampled inputs '
-               'only.  The theorems named ..._of_leaf_hyps are about a separately transcribed rule set '
+               'norm-type leaves (round 4): NormOperator, DistOperator, the functional L2Norm, ComplexModulus '
+               'and PointwiseNorm (exponent 2, unweighted, >= 2 components) have an executable model at Float '
+               '(Model/DerivLeaves.lean; OperatorComp(leaf, tree) in Model/DerivLeafComp.lean with the tree at '
+               'Rat), compared bit for bit where NumPy fixes the order of operations (streams leaf, leafcomp); '
+               'the theorems read the same definitions at R with Real.sqrt; Float rounding is outside the '
+               'theorems; PointwiseNorm with exponent != 2, weights or one component, and these leaves under '
+               'other combinators than OperatorComp(leaf, tree) stay oracle-only',
+               'operator classes without an executable model (ufunc operators (their derivative TABLE is '
+               'extracted and proved; values are not executed in the model), finite differences, '
+               'ResizingOperator, functionals other than L2NormSquared/InnerProduct/L2Norm) are checked by '
+               'the central-difference oracle on sampled inputs only.  The theorems named ..._of_leaf_hyps are about a separately transcribed rule set '
                '(endomorphism trees on one algebra), conditional on leaf hypotheses, and executed by nothing',
                'Fn.float/Expr.evalF (executed, compared with the code) and Fn.real/Expr.eval (theorems) are '
                'two clause-by-clause identical readings of the generated tables at Float and at R',
@@ -2335,6 +2350,18 @@ def _ftoks(a):
     return ','.join(_ftok(v) for v in a) if a else '-'
 
 
+def _history_applicable(op, x):
+    """The history stratum of oracle_on also takes derivatives at y = 0.75 x; for a norm-type operator
+    that is legitimate only if y is not a non-differentiable point (value entry 0: the composed
+    operator raises the documented ValueError there — seen in the thorough tier)."""
+    try:
+        with np.errstate(all='ignore'):
+            v = flat(op(0.75 * x))
+        return bool(np.all(np.isfinite(v)) and not np.any(v == 0))
+    except Exception:  # noqa
+        return False
+
+
 def run_leaf_case(c):
     """Real code on one leaf case.  Returns (line, impl dict | error string, problems)."""
     spec = c['spec']
@@ -2361,7 +2388,8 @@ def run_leaf_case(c):
             ['op(x) raised {}: {}'.format(type(e).__name__, str(e)[:160])]
     if not singular:
         with np.errstate(all='ignore'):
-            problems, _, _ = oracle_on(op, x, d, exact_linear=False, history=not QUICK[0])
+            problems, _, _ = oracle_on(op, x, d, exact_linear=False,
+                                       history=(not QUICK[0]) and _history_applicable(op, x))
         problems = list(problems)
     try:
         with np.errstate(all='ignore'):
@@ -2575,7 +2603,8 @@ def run_leafcomp_case(c):
                  'small': bool(inner.size == 0 or float(np.max(np.abs(inner))) < 2.0 ** 25)})
     if not singular:
         with np.errstate(all='ignore'):
-            pr, _, _ = oracle_on(op, x, d, exact_linear=False, history=not QUICK[0])
+            pr, _, _ = oracle_on(op, x, d, exact_linear=False,
+                                 history=(not QUICK[0]) and _history_applicable(op, x))
         problems = problems + list(pr)
     try:
         with np.errstate(all='ignore'):
